@@ -1080,7 +1080,15 @@ impl<'a> Ex<'a> {
                 s = s.wrapping_add(len);
                 n += 1;
             }
-            if n > E1_FUEL / 4 {
+            // an implementation may also pass over a free candidate at which another (empty) area starts -
+            // areas are addressed by their start - and search on from there: legitimate, and possibly long
+            let mut s2: u64 = 0x1000;
+            let mut n2: u64 = 0;
+            while (!self.m.free(s2, len, None) || self.m.areas.iter().any(|a| a.start == s2)) && n2 <= E1_FUEL / 4 {
+                s2 = s2.wrapping_add(len);
+                n2 += 1;
+            }
+            if n > E1_FUEL / 4 || n2 > E1_FUEL / 4 {
                 self.ctx.probe("anywhere_skipped_long_search");
                 return;
             }
